@@ -96,6 +96,7 @@ type Env struct {
 	siteCount map[string]int
 	mainGID   uint64
 	inHook    bool
+	opCancel  context.CancelFunc
 	lastMtime time.Time
 	restoreN  int
 	start     time.Time
@@ -532,7 +533,12 @@ func errStr(err error) string {
 // execOp executes one op. Returns a result string and whether the op is an
 // acknowledged replication round.
 func (e *Env) execOp(op *Op) (string, bool) {
-	ctx := context.Background()
+	// every op runs under its own cancellable context: the interposable harness
+	// step "cancel_ctx" cancels it at a yield site (a request that times out or
+	// a caller that gives up at an arbitrary instant)
+	ctx, cancel := context.WithCancel(context.Background())
+	e.opCancel = cancel
+	defer func() { cancel(); e.opCancel = nil }()
 	switch {
 	case op.Kind == "app":
 		if op.Step != nil && op.Step.K == "save_copy" {
@@ -625,6 +631,30 @@ func (e *Env) execOp(op *Op) (string, bool) {
 // harnessSteps lets property files register interposable steps of parties other
 // than the application writer.
 var harnessSteps = map[string]func(e *Env, st *Step) string{}
+
+func init() {
+	harnessSteps["cancel_ctx"] = func(e *Env, st *Step) string {
+		if e.opCancel == nil {
+			return "noop"
+		}
+		e.opCancel()
+		e.Res.Probes["ctx_cancelled"]++
+		e.Res.FaultsHit["ctx_cancel"]++
+		return "ok"
+	}
+	harnessSteps["sql_fail"] = func(e *Env, st *Step) string {
+		// the statement litestream is about to execute fails (an I/O error inside
+		// SQLite, or SQLITE_BUSY where that is a possible outcome)
+		if st.Mode == "busy" {
+			sqlFault = fmt.Errorf("database is locked (5) (SQLITE_BUSY)")
+		} else {
+			sqlFault = fmt.Errorf("disk I/O error (10) (SQLITE_IOERR)")
+		}
+		e.Res.Probes["sql_faults"]++
+		e.Res.FaultsHit["sql_"+map[bool]string{true: "busy", false: "ioerr"}[st.Mode == "busy"]]++
+		return "ok"
+	}
+}
 
 // extraOps lets property files register additional op kinds.
 var extraOps = map[string]func(e *Env, op *Op) (string, bool){}
